@@ -16,7 +16,7 @@ VARIABLES l, bad, drift
 HsGood(s)    == s.hs \in {"ok", "nofeature"}
 Feature(s)   == s.hs = "ok"
 GenLabelOK(s) == s.gen \in {"ok", "samepath", "samepath-dot", "samepath-same", "samepath-empty", "abs", "nested"}   \* a complete, well-formed reply whose paths are acceptable alone
-GenDies(s)   == s.gen \in {"trunc", "exit", "oversize"}
+GenDies(s)   == s.gen \in {"trunc", "exit", "oversize", "neglen", "neglen2"}
 
 S(e) == e.case.plugins
 N(e) == Len(S(e))
